@@ -146,7 +146,7 @@ def main():
         pnum, punit = rng.choice(PERIODS)
         period_ns = pnum * 10 ** E[punit]
         nt = sum(1 for q in subformulas(phi) if q["op"] in TIMED)
-        bad = rng.random() < 0.12 and period_ns % 2 == 0
+        bad = rng.random() < (0.4 if kind == "past" and ({"next", "snext"} & ops_of(phi)) else 0.12) and period_ns % 2 == 0
         K = rng.choice([2, 2, 3])
         objs = []
         for k in range(K):
@@ -190,6 +190,18 @@ def main():
             for t in range(N):
                 evs += [ev_update(t, sample_at(w, t), k + 1) for k in range(K)]
             rels = [{"rel": "same_on_from", "x": 1 + int(bad), "y": k + 1, "k": (h + 1 if kind == "past" else 1)} for k in range(1 + int(bad), K)]
+            if bad and kind == "past" and period_ns % 2 == 0 and rng.random() < 0.7:
+                # object 1, whose pastify() is refused for a bound of k + 1/2 periods, is given half the sampling period - every bound is
+                # then a whole number of periods - and pastified again (seed r10 C03-2: horizons recorded by the refused call survived)
+                half = period_ns // 2
+                hu = [u for u in ("s", "ms", "us", "ns") if half % 10 ** E[u] == 0 and half // 10 ** E[u] <= 100000][0]
+                evs = [e_ for e_ in evs if not (e_["o"] == 1 and e_["a"] == "update")]
+                evs.append({"o": 1, "a": "config", "set_period": [half // 10 ** E[hu], hu, 0.1],
+                            "units": {"def": objs[0]["unit"], "pnum": half // 10 ** E[hu], "pden": 1, "punit": hu}})
+                evs.append(ev_pastify(1))
+                N2 = 2 * h + rng.choice([3, 4, 6])
+                w2 = gen_trace(rng, vs, N2, S, lo=-6, hi=6)
+                evs += [ev_update(t, sample_at(w2, t), 1) for t in range(N2)]
         if kind == "off" and not bad and rng.random() < 0.45:
             # one more object that is first configured with half the sampling period and evaluated, then re-configured to the
             # case's period and evaluated on the case's data: the bounds are resolved at every evaluate(), so the result is that
